@@ -10,7 +10,7 @@ import json
 import os
 import random
 
-from harness import common, pipelines, tlc
+from harness import common, pipelines, symbolic, tlc
 
 
 def cfg(level, path, chunks=32):
@@ -31,6 +31,18 @@ def check_expression(chk, rec, tmp):
     if apply != [rec['apply']]:
         return ('apply mode: the chain applied with the trained states differs from the denotation '
                 f'(observed {json.dumps(apply)[:300]} expected {json.dumps(rec["apply"])[:300]})')
+    # "passes downstream the output of applying the FRESHLY TRAINED actor ... applies the same chain with THOSE trained
+    # states": the state persisted for an actor is the very training execution (nonce) whose application went downstream in
+    # train mode - not an equal-looking state of a second, separately trained instance
+    for state in extra['raw_states']:
+        term = json.loads(bytes(state).decode()) if state else None
+        if not term or term.get('tag') != 'st' or len(term['args']) <= 4:
+            continue
+        label, nonce = term['label'], term['args'][4]['label']
+        downstream = symbolic.nonces(extra['raw_train'], label)
+        if downstream and nonce not in downstream:
+            return (f'the state persisted for actor {label} comes from another training execution than the one whose '
+                    'application was passed downstream in train mode (two separately trained instances of one actor)')
     return None
 
 
